@@ -174,12 +174,15 @@ func (c *c20) isolation(tape *kernel.Tape, n int) {
 		refs = append(refs, &refInst{name: name, h: p, want: fingerprint(p)})
 	}
 	// header names owned by the caller (e.g. a package-level list reused for every tenant's provider)
+	// a configuration value owned by the caller and used for several providers; optional members left empty
+	sharedConf := &op.Config{CryptoKey: w.Conf.CryptoKey, CodeMethodS256: true, GrantTypeRefreshToken: true, DeviceAuthorization: w.Conf.DeviceAuthorization}
+	sharedConfBefore, worldConfBefore := fmt.Sprintf("%+v", *sharedConf), fmt.Sprintf("%+v", *w.Conf)
 	callerHeaders := []string{"x-other", "x-tenant"}
 	callerHeadersBefore := strings.Join(callerHeaders, ",")
 	steps(c.o, tape, n, func(i int, ch *kernel.Chooser) string {
 		c.step = i
 		var desc string
-		switch ch.Int(19) {
+		switch ch.Int(20) {
 		case 14: // idempotent requests served concurrently answer exactly what they answer alone
 			tok := "no-token"
 			if sess != nil && sess.tokens != nil {
@@ -335,6 +338,18 @@ func (c *c20) isolation(tape *kernel.Tape, n int) {
 			}
 			_, err := op.NewProvider(w.Conf, w.OP.Storage, op.StaticIssuer("https://custom.sim"), o, op.WithLogger(world.Discard))
 			desc = fmt.Sprintf("construct provider with custom %s endpoint (%v)", name, err)
+		case 19: // providers for several issuers from ONE configuration value, built with the constructors applications call
+			var err error
+			switch k := ch.Int(3); k {
+			case 0:
+				_, err = op.NewOpenIDProvider(fmt.Sprintf("https://tenant%d.sim", i), sharedConf, w.OP.Storage, op.WithLogger(world.Discard))
+			case 1:
+				_, err = op.NewDynamicOpenIDProvider("", sharedConf, w.OP.Storage, op.WithLogger(world.Discard))
+			default:
+				_, err = op.NewForwardedOpenIDProvider("", sharedConf, w.OP.Storage, op.WithLogger(world.Discard))
+			}
+			c.o.Probe("providers-from-one-shared-config")
+			desc = fmt.Sprintf("construct a provider from the shared configuration value (%v)", err)
 		case 1: // a provider with defaults: its endpoints must be the defaults whatever was built before
 			p, err := op.NewProvider(w.Conf, w.OP.Storage, op.StaticIssuer("https://plain.sim"), op.WithLogger(world.Discard))
 			desc = fmt.Sprintf("construct provider with default endpoints (%v)", err)
@@ -432,6 +447,14 @@ func (c *c20) isolation(tape *kernel.Tape, n int) {
 		if e := w.Store.BareSentinel; e.State != "" || e.SessionState != "" || e.Description != "" || e.Parent != nil {
 			c.viol("caller-object-mutated", "oidc.Error/storage-error-value-without-description", "after %q: the error value owned by the storage (returned wrapped) was modified: state=%q session_state=%q description=%q parent=%v", desc, e.State, e.SessionState, e.Description, e.Parent)
 			e.State, e.SessionState, e.Description, e.Parent = "", "", "", nil
+		}
+		if got := fmt.Sprintf("%+v", *sharedConf); got != sharedConfBefore {
+			c.viol("caller-object-mutated", "op.Config", "after %q: the caller's configuration value was modified:\n  before: %s\n  after:  %s", desc, sharedConfBefore, got)
+			sharedConfBefore = got
+		}
+		if got := fmt.Sprintf("%+v", *w.Conf); got != worldConfBefore {
+			c.viol("caller-object-mutated", "op.Config", "after %q: the configuration value of the running provider was modified:\n  before: %s\n  after:  %s", desc, worldConfBefore, got)
+			worldConfBefore = got
 		}
 		if got := strings.Join(callerHeaders, ","); got != callerHeadersBefore {
 			c.viol("caller-object-mutated", "op.WithIssuerFromCustomHeaders/headers", "after %q: the caller's header list was rewritten: %s -> %s", desc, callerHeadersBefore, got)
